@@ -53,7 +53,6 @@ mut("C10: Resolve reports success when its context ends first", ["C10"], "capabi
     "\t\tcase <-h.resolved:\n\t\tcase <-ctx.Done():\n\t\t\treturn ctx.Err()", "\t\tcase <-h.resolved:\n\t\tcase <-ctx.Done():\n\t\t\treturn nil")
 mut("C12: a call that waited for a slot is started although Shutdown has begun", ["C12"], "server/server.go",
     "\t\tid = srv.nextID()\n\t\tif srv.drain != nil {", "\t\tid = srv.nextID()\n\t\tif false && srv.drain != nil {")
-mut("C20: a failed Encode poisons the encoder's writer state", ["C20"], "encoding/text/marshal.go", "XXXX-not-present", "")
 # ---- C09
 mut("C09: sendMessage keeps the sender lock when building the message fails", ["C09"], "rpc/rpc.go",
     "\t\trelease()\n\t\tc.mu.Lock()\n\t\tc.unlockSender()\n\t\treturn errorf(\"build message: %v\", err)", "\t\trelease()\n\t\tc.mu.Lock()\n\t\treturn errorf(\"build message: %v\", err)")
